@@ -1960,17 +1960,44 @@ static int64_t eval2(Node *node, char ***label) {
 
 static int64_t eval3(Node *node, char ***label) {
 
+  // Operands are evaluated left to right explicitly. C leaves the order
+  // of `f(x) + f(y)` unspecified, and here it decides which of two
+  // diagnostics is reported.
+  int64_t lhs = 0;
+  int64_t rhs = 0;
+
   switch (node->kind) {
   case ND_ADD:
-    return eval2(node->lhs, label) + eval(node->rhs);
   case ND_SUB:
-    return eval2(node->lhs, label) - eval(node->rhs);
+    lhs = eval2(node->lhs, label);
+    rhs = eval(node->rhs);
+    break;
   case ND_MUL:
-    return eval(node->lhs) * eval(node->rhs);
   case ND_DIV:
-  case ND_MOD: {
-    int64_t lhs = eval(node->lhs);
-    int64_t rhs = eval(node->rhs);
+  case ND_MOD:
+  case ND_BITAND:
+  case ND_BITOR:
+  case ND_BITXOR:
+  case ND_SHL:
+  case ND_SHR:
+  case ND_EQ:
+  case ND_NE:
+  case ND_LT:
+  case ND_LE:
+    lhs = eval(node->lhs);
+    rhs = eval(node->rhs);
+    break;
+  }
+
+  switch (node->kind) {
+  case ND_ADD:
+    return lhs + rhs;
+  case ND_SUB:
+    return lhs - rhs;
+  case ND_MUL:
+    return lhs * rhs;
+  case ND_DIV:
+  case ND_MOD:
     if (rhs == 0)
       error_tok(node->tok, "division by zero in a constant expression");
     if (node->ty->is_unsigned)
@@ -1978,33 +2005,32 @@ static int64_t eval3(Node *node, char ***label) {
     if (rhs == -1)
       return (node->kind == ND_DIV) ? -(uint64_t)lhs : 0;
     return (node->kind == ND_DIV) ? lhs / rhs : lhs % rhs;
-  }
   case ND_NEG:
     return -eval(node->lhs);
   case ND_BITAND:
-    return eval(node->lhs) & eval(node->rhs);
+    return lhs & rhs;
   case ND_BITOR:
-    return eval(node->lhs) | eval(node->rhs);
+    return lhs | rhs;
   case ND_BITXOR:
-    return eval(node->lhs) ^ eval(node->rhs);
+    return lhs ^ rhs;
   case ND_SHL:
-    return eval(node->lhs) << eval(node->rhs);
+    return lhs << rhs;
   case ND_SHR:
     if (node->ty->is_unsigned && node->ty->size == 8)
-      return (uint64_t)eval(node->lhs) >> eval(node->rhs);
-    return eval(node->lhs) >> eval(node->rhs);
+      return (uint64_t)lhs >> rhs;
+    return lhs >> rhs;
   case ND_EQ:
-    return eval(node->lhs) == eval(node->rhs);
+    return lhs == rhs;
   case ND_NE:
-    return eval(node->lhs) != eval(node->rhs);
+    return lhs != rhs;
   case ND_LT:
     if (node->lhs->ty->is_unsigned)
-      return (uint64_t)eval(node->lhs) < eval(node->rhs);
-    return eval(node->lhs) < eval(node->rhs);
+      return (uint64_t)lhs < rhs;
+    return lhs < rhs;
   case ND_LE:
     if (node->lhs->ty->is_unsigned)
-      return (uint64_t)eval(node->lhs) <= eval(node->rhs);
-    return eval(node->lhs) <= eval(node->rhs);
+      return (uint64_t)lhs <= rhs;
+    return lhs <= rhs;
   case ND_COND:
     return eval(node->cond) ? eval2(node->then, label) : eval2(node->els, label);
   case ND_COMMA:
@@ -2139,28 +2165,42 @@ static long double eval_double2(Node *node) {
   // float and double operations are carried out in double (rounding a
   // double result to float afterwards is exact), long double ones in
   // long double.
+  long double lhs = 0;
+  long double rhs = 0;
+
+  switch (node->kind) {
+  case ND_ADD:
+  case ND_SUB:
+  case ND_MUL:
+  case ND_DIV:
+    // left to right, see eval3
+    lhs = eval_double(node->lhs);
+    rhs = eval_double(node->rhs);
+    break;
+  }
+
   if (node->ty->kind != TY_LDOUBLE) {
     switch (node->kind) {
     case ND_ADD:
-      return (double)eval_double(node->lhs) + (double)eval_double(node->rhs);
+      return (double)lhs + (double)rhs;
     case ND_SUB:
-      return (double)eval_double(node->lhs) - (double)eval_double(node->rhs);
+      return (double)lhs - (double)rhs;
     case ND_MUL:
-      return (double)eval_double(node->lhs) * (double)eval_double(node->rhs);
+      return (double)lhs * (double)rhs;
     case ND_DIV:
-      return (double)eval_double(node->lhs) / (double)eval_double(node->rhs);
+      return (double)lhs / (double)rhs;
     }
   }
 
   switch (node->kind) {
   case ND_ADD:
-    return eval_double(node->lhs) + eval_double(node->rhs);
+    return lhs + rhs;
   case ND_SUB:
-    return eval_double(node->lhs) - eval_double(node->rhs);
+    return lhs - rhs;
   case ND_MUL:
-    return eval_double(node->lhs) * eval_double(node->rhs);
+    return lhs * rhs;
   case ND_DIV:
-    return eval_double(node->lhs) / eval_double(node->rhs);
+    return lhs / rhs;
   case ND_NEG:
     return -eval_double(node->lhs);
   case ND_COND:
